@@ -55,6 +55,13 @@ inline std::vector<T> multi_channel_refine_weights(
         sum_of_new_weights += new_weights[i];
     }
 
+    // if the adjustment data does not contain any information, e.g. because the integrand was zero
+    // everywhere, leave the weights as they are
+    if (sum_of_new_weights == T())
+    {
+        return weights;
+    }
+
     T new_sum = T();
 
     for (T& weight : new_weights)
